@@ -63,9 +63,9 @@ type reader struct {
 
 func (r reader) ReadByte() (byte, error) {
 	var b [1]byte
-	n, err := r.Read(b[:])
-	if n == 1 {
-		return b[0], nil
+	// (ReadFull: a Reader may answer (0, nil), which is not a byte, and may deliver the last byte together with io.EOF)
+	if _, err := io.ReadFull(r.Reader, b[:]); err != nil {
+		return 0, err
 	}
-	return 0, err
+	return b[0], nil
 }
